@@ -27,10 +27,10 @@ BASE = [
     B('uint16', ['0', '1', '65535', '513']),
     B('uint64', ['0', '1', '1<<63', '^uint64(0)']),
     B('uintptr', ['0', '1', '0xdeadbeef']),
-    B('float32', ['0', '1.5', 'float32(math.Copysign(0, -1))', '-2.25', '3.4e38', '0']),
-    B('float64', ['0', 'math.Copysign(0, -1)', '1.5', '-2.25', '1.7e308', '5e-324', '0']),
+    B('float32', ['0', '1.5', 'float32(math.Copysign(0, -1))', '-2.25', '3.4e38', 'float32(math.NaN())', '0']),
+    B('float64', ['0', 'math.Copysign(0, -1)', '1.5', '-2.25', '1.7e308', '5e-324', 'math.NaN()', 'math.Inf(-1)', '0']),
     B('complex64', ['0', 'complex(float32(math.Copysign(0, -1)), 0)', 'complex(1, 2)', 'complex(-3.5, 4)']),
-    B('complex128', ['0', 'complex(0, math.Copysign(0, -1))', 'complex(1, 2)', 'complex(-3.5, 4e100)']),
+    B('complex128', ['0', 'complex(0, math.Copysign(0, -1))', 'complex(1, 2)', 'complex(-3.5, 4e100)', 'complex(math.NaN(), 1)']),
     B('string', ['""', '"a"', '"h\\u00e9llo"', '"a longer string value 0123456789"']),
     B('[]byte', ['nil', '[]byte{}', '[]byte{1, 2, 3}', '[]byte("xyz")'], canon='[]uint8'),
     B('[]int', ['nil', '[]int{1}', '[]int{1, 2, 3}']),
@@ -45,14 +45,14 @@ BASE = [
     B('*int', ['nil', 'pInt1', 'pInt2']),
     B('*string', ['nil', 'pStr1', 'pStr2']),
     B('map[string]int', ['nil', 'm1', 'm2']),
-    B('any', ['nil', '1', '"s"', '2.5', 'pInt1', '[2]int{1, 2}', '[]int{7}', '[]int{8, 9}', 'map[string]int{"z": 1}', 'map[string]int{"y": 2}'], canon='interface {}'),
+    B('any', ['nil', '1', '"s"', '2.5', 'math.NaN()', 'pInt1', '[2]int{1, 2}', '[]int{7}', '[]int{8, 9}', 'map[string]int{"z": 1}', 'map[string]int{"y": 2}'], canon='interface {}'),
     B('error', ['nil', 'errA', 'io.EOF']),
     B('fmt.Stringer', ['nil', 'strImpl("a")', 'strImpl("bb")']),
     B('chan int', ['nil', 'ch1', 'ch2']),
     B('MyStr', ['MyStr("")', 'MyStr("q")', 'MyStr("named")'], canon='main.MyStr'),
     B('MyInt', ['MyInt(0)', 'MyInt(-7)', 'MyInt(1 << 30)'], canon='main.MyInt'),
     B('MyBytes', ['MyBytes(nil)', 'MyBytes{9, 8}', 'MyBytes("ab")'], canon='main.MyBytes'),
-    B('MyF', ['MyF(0)', 'MyF(math.Copysign(0, -1))', 'MyF(2.5)', 'MyF(-1e9)'], canon='main.MyF'),
+    B('MyF', ['MyF(0)', 'MyF(math.Copysign(0, -1))', 'MyF(2.5)', 'MyF(-1e9)', 'MyF(math.NaN())'], canon='main.MyF'),
     B('MyI8', ['MyI8(0)', 'MyI8(-128)', 'MyI8(127)'], canon='main.MyI8'),
     # two packages with the same package name declaring a type of the same name: reflect's String() is "x.Str" for both
     B('xa.Str', ['xa.Str("")', 'xa.Str("pa")', 'xa.Str("from package a")'], canon='optgen/sa/x.Str'),
